@@ -338,6 +338,38 @@ def R3_next_price(run):
                   found=str(got), detail=want)
 
 
+def R3b_from_b_formula(run):
+    run.title("R3b", "get_next_sqrt_price_from_b_round_down: the price moves by div_round_up_if(amount << 64, liquidity, !exact_in) and by nothing else - the whole "
+                     "liquidity divides the Q64.64 amount in every case (no branch that drops the low bits of the liquidity or of the amount)")
+    facts = run.facts
+    g = facts.need_fn(TM + "get_next_sqrt_price_from_b_round_down")
+    run.touch(g)
+    for val in (True, False):
+        pv = prov_of(g, {"amount_specified_is_input": val})
+        outs = []
+        for bi, bb in enumerate(g.blocks):
+            if bb["t"]["k"] == "ret" and pv.flow.state_in[bi] is not None:
+                for l in leaves(pv.local(0, bi, len(bb["s"]))):
+                    s_ = strip(l)
+                    if s_[0] == "call" and "from_residual" in s_[1]:
+                        continue
+                    outs.append(s_)
+        ok = len(outs) == 1
+        why = [sh(x, 120) for x in outs]
+        if ok:
+            r = outs[0]
+            ok = r[0] == "call" and r[1].endswith("ok_or") and is_call(r[2][0], "checked_add" if val else "checked_sub")
+            if ok:
+                a_ = strip(r[2][0])[2]
+                d_ = strip(a_[1])
+                ok = is_param(a_[0], "sqrt_price") and d_[0] == "call" and d_[1] == BM + "div_round_up_if"
+                if ok:
+                    n_, den_ = strip(d_[2][0]), strip(d_[2][1])
+                    ok = n_[0] == "bin" and n_[1] in ("Shl", "ShlUnchecked") and is_param(strip(n_[2]), "amount") and const_val(n_[3]) == 64 and is_param(den_, "liquidity")
+        run.check("R3b", "delta[exact_in=%d]" % val, ok, "from_b returns %s, expected sqrt_price %s div_round_up_if(amount << 64, liquidity, %s)?" % (why, "+" if val else "-", "false" if val else "true"),
+                  loc=g.loc(), detail="sqrt_price %s ((amount << 64) / liquidity rounded %s)" % ("+" if val else "-", "down" if val else "up"))
+
+
 def _step_fields(fn, ctx):
     pv = prov_of(fn, ctx)
     out = None
@@ -601,6 +633,17 @@ def check_remainder_exact(run, rule, fn):
                             ok = True
         if not ok:
             problems.append("block %d increments %s but no guard tests the exact remainder of that operation" % (bi, sh(q, 80)))
+        # ... and that division is the only truncation: its dividend is not itself a truncated quotient (x / a / b rounded up by the last
+        # remainder alone is floor(x / a) / b rounded up - one unit short whenever only the first division left a remainder)
+        dividend = None
+        if q[0] == "bin" and q[1] in ("Div", "Shr"):
+            dividend = q[2]
+        elif q[0] == "field" and q[2] == "0" and is_call(q[1], "U256Muldiv::div"):
+            dividend = strip(q[1])[2][0]
+        if dividend is not None:
+            inner = [x for x in subterms(dividend) if (x[0] == "bin" and x[1] in ("Div", "Shr")) or (x[0] == "call" and x[1].endswith(("U256Muldiv::div", "::shift_word_right", "::shift_right", "::checked_div", "::div_ceil")))]
+            if inner:
+                problems.append("block %d rounds up %s, whose dividend is already a truncated quotient (%s)" % (bi, sh(q, 60), sh(inner[0], 60)))
     run.check(rule, inst, not problems, "; ".join(problems), loc=fn.loc(), detail="%d increment(s) guarded by the exact remainder of the same division / shift" % len(incs))
 
 
@@ -745,4 +788,4 @@ def R6_reach_target_decision(run):
     run.check("R6", "recompute-on-overflow", len(re_at) >= 1, "compute_swap no longer re-computes the fixed delta when the first estimate exceeded u64", loc=fn.loc(), detail="!is_max || exceeds_max() => recompute")
 
 
-RULES = [R1_step_polarity, R1b_who_decides_overflow, R2_rounding_primitives, R3_next_price, R4_fee_and_amounts, R5_exact_remainders, R6_reach_target_decision]
+RULES = [R1_step_polarity, R1b_who_decides_overflow, R2_rounding_primitives, R3_next_price, R3b_from_b_formula, R4_fee_and_amounts, R5_exact_remainders, R6_reach_target_decision]
